@@ -188,4 +188,44 @@ theorem unforked_set_drops_fork {g : Graph V} (s : St V) {i : Nat} (hi : i < g.n
   have : ¬ g.n ≤ i := by omega
   simp [this, hk, hm]
 
+/-! ### non-vacuity of `Commutes` -/
+
+
+private def toyG : Graph (Int × Int) :=
+  { n := 5
+    kind := fun i => if i = 0 ∨ i = 1 then .indep true else .linked
+    parents := fun i => if i = 2 then [0, 1] else if i = 3 then [1] else if i = 4 then [2, 3] else []
+    fn := fun i ps => match i, ps with
+      | 2, [a, b] => (a.1 + 2 * b.1, a.2 + 2 * b.2)
+      | 3, [b] => (b.1 * b.1, b.2 * b.2)
+      | 4, [c, d] => (c.1 - d.1, c.2 - d.2)
+      | _, _ => (0, 0)
+    init := fun _ => none
+    order := [0, 1, 2, 3, 4]
+    desc := fun i => if i = 0 then [2, 4] else if i = 1 then [2, 3, 4] else if i = 2 then [4] else if i = 3 then [4] else []
+    anc := fun i => if i = 2 then [0, 1] else if i = 3 then [1] else if i = 4 then [0, 1, 2, 3] else [] }
+
+private def mix2 (m : Bool × Bool) (o c : Int × Int) : Int × Int :=
+  (if m.1 then o.1 else c.1, if m.2 then o.2 else c.2)
+
+private theorem spec4 (ind : Cache (Int × Int)) :
+    spec toyG ind 4 = (ind 0).bind fun a => (ind 1).map fun b =>
+      ((a.1 + 2 * b.1) - b.1 * b.1, (a.2 + 2 * b.2) - b.2 * b.2) := by
+  cases h0 : ind 0 <;> cases h1 : ind 1 <;>
+    simp [spec, evalStep, nodeVal, upd, toyG, h0, h1]
+
+/-- Non-vacuity of the precondition: in a graph whose nodes are computed individual by individual (values are
+    pairs = two individuals), a descendant of the assigned node commutes with the entry-wise mix. -/
+example (m : Bool × Bool) : Commutes toyG mix2 m 1 4 := by
+  intro ind x y o c ho hc
+  rw [spec4] at ho hc ⊢
+  simp only [upd] at ho hc ⊢
+  cases h0 : ind 0 with
+  | none => simp [h0] at ho
+  | some a =>
+    simp [h0] at ho hc ⊢
+    obtain ⟨m1, m2⟩ := m
+    subst ho; subst hc
+    cases m1 <;> cases m2 <;> simp [mix2]
+
 end LeaspyVerif.C02
